@@ -12,4 +12,5 @@ PROPERTY_MODULES.update({
     "C10": "contracts.C10_batching",
     "C17": "contracts.C17_patchset",
     "C19": "contracts.C19_cli",
+    "C20": "contracts.C20_refusal",
 })
